@@ -167,6 +167,16 @@ def _retry_worker(arg):
             out["result"] = ("ok", dds.eval(scen10.p_twice, k, cls, n))
         elif kind == "df_twice":
             out["result"] = ("ok", dds.eval(scen10.p_df_twice, n))
+        elif kind == "fallback_inside":
+            out["result"] = ("ok", dds.eval(scen10.p_fallback, k, cls))
+        elif kind == "fallback_outside":
+            # the caller evaluates another pipeline from the handler of the failed evaluation
+            try:
+                dds.eval(scen10.p_fails_only, k, cls)
+                out["result"] = ("ok", "failing pipeline returned")
+            except BaseException as e:
+                same = e is vlog.raised.get("always_fails")
+                out["result"] = ("ok", ("fallback", same, dds.eval(scen10.p_good_only, k)))
         else:
             out["result"] = ("ok", dds.eval(scen10.p_retry, k, cls, n))
     except BaseException as e:  # noqa
@@ -324,6 +334,14 @@ def retry_job(arg):
         return rep
     res = o["result"][1]
     rep.count("retry_scenarios")
+    if kind in ("fallback_inside", "fallback_outside"):
+        want = ("fallback", True, ("value-of-good", k)) if kind == "fallback_inside" else ("fallback", True, ("good-only", ("value-of-good", k)))
+        if res != want:
+            bad("an evaluation started while the failure of a kept call is being handled returned %r, plain execution gives %r" % (res, want), "fallback-in-handler-wrong")
+        elif o["loads"]["/c10r/good"] != ("ok", ("value-of-good", k)):
+            bad("the path kept by the fallback loads %r" % (o["loads"]["/c10r/good"],), "fallback-in-handler-wrong")
+        rep.nontriv(("c10retry",) + tuple(arg))
+        return rep
     if kind in ("twice", "df_twice"):
         attempts, fname, path = (res[0], "always_fails", "/c10r/always") if kind == "twice" else (res, "df_fails", "/c10r/df_fails")
         for i, a in enumerate(attempts):
@@ -396,6 +414,8 @@ def run(tier, seed):
             rjobs.append(("twice", store, k, cls, 2 + ci % 3))
             rjobs.append(("retry", store, k, cls, 1 + ci % 3))
         rjobs.append(("df_twice", store, 0, "ValueError", 3))
+        rjobs.append(("fallback_inside", store, 5, "ValueError", 1))
+        rjobs.append(("fallback_outside", store, 6, "KeyError", 1))
     ljobs = [(store, cls, kl) for store in ("local", "memory", "local_lru") for cls in ("ValueError", "KeyboardInterrupt") for kl in (False, True)]
     mjobs = [(store, cls) for store in ("local", "local_lru", "local_lru_all") for cls in ("ValueError", "KeyboardInterrupt")]
     results = core.fork_map(lambda j: {"r": retry_job, "c": case_job, "l": leak_job, "m": mutate_job}[j[0]](j[1]), [("c", j) for j in jobs] + [("r", j) for j in rjobs] + [("l", j) for j in ljobs] + [("m", j) for j in mjobs], timeout=900)
